@@ -38,6 +38,33 @@ def unknown_alg_sig(sigbytes):
     return bytes(b)
 
 
+def _newlen(n):
+    if n < 192:
+        return bytes([n])
+    if n < 8384:
+        return bytes([((n - 192) >> 8) + 192, (n - 192) & 0xFF])
+    return bytes([255]) + n.to_bytes(4, 'big')
+
+
+def rebuild_sig(sigbytes, transform):
+    """the same v4 signature packet with its hashed subpacket area replaced by transform(area) (lengths fixed up); the integers are not valid
+    any more - C14 does not verify them"""
+    b = bytes(sigbytes)
+    hl = 2 if b[1] < 192 else (3 if b[1] < 224 else 6)
+    body = b[hl:]
+    hlen = body[4] * 256 + body[5]
+    area = transform(body[6:6 + hlen])
+    nb = body[:4] + bytes([len(area) // 256, len(area) % 256]) + area + body[6 + hlen:]
+    return bytes([0xC2]) + _newlen(len(nb)) + nb
+
+
+def long_form_first_subpacket(area):
+    """first subpacket's length re-encoded in the five-octet form (legal, not minimal: what another producer may emit)"""
+    n = area[0]
+    assert n < 192
+    return bytes([255, 0, 0, 0, n]) + area[1:]
+
+
 def make_menu():
     A = new_key('alice', sub=True)
     B = new_key('bob', sub=False)
@@ -73,13 +100,15 @@ def make_menu():
         ('sig', _pkt_bytes(binding)), ('sig', _pkt_bytes(direct)), ('sig', _pkt_bytes(rev)),
         ('key', _pkt_bytes(pubB._key)),
         ('sig', _pkt_bytes(revoker_s)), ('uid', odd_uid), ('sig', unknown_alg_sig(_pkt_bytes(plain))),
+        # a certification whose hashed area is not minimally encoded, and a revocation marked non-exportable (as GnuPG's lsign + revsig leaves them)
+        ('sig', rebuild_sig(_pkt_bytes(third), long_form_first_subpacket)), ('sig', rebuild_sig(_pkt_bytes(rev), lambda a: bytes([2, 4, 0]) + a)),
     ]
     return _pkt_bytes(pubA._key), menu, str(pubA.fingerprint), str(pubB.fingerprint)
 
 
 PRIMARY_A, MENU, FPR_A, FPR_B = make_menu()
 NM = len(MENU)
-NONEXPORTABLE = {MENU[8][1]}
+NONEXPORTABLE = {MENU[8][1], MENU[18][1]}
 
 
 def reference_grouping(seq):
@@ -176,7 +205,7 @@ def check_shape(idx):
 @ob('O14.1', 'import attaches every signature to the component that precedes it, ignores trust packets, splits a second primary key off; export omits exactly the '
              'signatures marked non-exportable; re-import gives the same structure; a copy exports identically',
     'packet sequence after the primary key: 1..3 (quick) / 1..4 (thorough) packets drawn by symbolic index from a %d-element menu (2 user ids, attribute, 2 subkeys, trust packet, '
-    '9 signatures incl. exportable absent / 1 / 0, a sensitive designated-revoker signature, one by an unknown algorithm, equal and differing creation times; a non-UTF-8 user id; second primary key)' % NM,
+    '11 signatures incl. exportable absent / 1 / 0, a sensitive designated-revoker signature, one by an unknown algorithm, one with a non-minimal subpacket length in the hashed area, a non-exportable revocation, equal and differing creation times; a non-UTF-8 user id; second primary key)' % NM,
     cond_timeout={'q': 280, 't': 1500}, path_timeout=120,
     partitions={'q': [['n <= 2']] + [['n == 3', 'i0 == %d' % a, 'i1 %% 2 == %d' % b] for a in range(NM) for b in range(2)],
                 't': [['n <= 2']] + [['n == 3', 'i0 == %d' % a] for a in range(NM)] + [['n == 4', 'i0 == %d' % a, 'i1 == %d' % b] for a in range(NM) for b in range(NM)]})
@@ -218,4 +247,4 @@ def key_shape_opaque_sig(i0: int, i2: int) -> bool:
 
 
 SANITY = ['key_shape(1, 0, 0, 0, 0)', 'key_shape(2, 0, 6, 0, 0)', 'key_shape(3, 0, 6, 7, 0)', 'key_shape(3, 0, 8, 7, 0)', 'key_shape(4, 0, 6, 3, 10)', 'key_shape(4, 5, 0, 5, 6)',
-          'key_shape(3, 13, 0, 6, 0)', 'key_shape(4, 0, 6, 13, 7)', 'key_shape(4, 1, 12, 9, 8)', 'key_shape(2, 11, 2, 0, 0)', 'key_shape(4, 3, 10, 4, 10)', 'key_shape(3, 6, 7, 8, 0)', 'key_shape(1, 14, 0, 0, 0)', 'key_shape(2, 15, 6, 0, 0)', 'key_shape(2, 1, 8, 0, 0)', 'key_shape(2, 0, 16, 0, 0)', 'key_shape(3, 3, 16, 6, 0)', 'key_shape_opaque_sig(13, 0)']
+          'key_shape(3, 13, 0, 6, 0)', 'key_shape(4, 0, 6, 13, 7)', 'key_shape(4, 1, 12, 9, 8)', 'key_shape(2, 11, 2, 0, 0)', 'key_shape(4, 3, 10, 4, 10)', 'key_shape(3, 6, 7, 8, 0)', 'key_shape(1, 14, 0, 0, 0)', 'key_shape(2, 15, 6, 0, 0)', 'key_shape(2, 1, 8, 0, 0)', 'key_shape(2, 0, 17, 0, 0)', 'key_shape(2, 1, 18, 0, 0)', 'key_shape(3, 0, 18, 17, 0)', 'key_shape(2, 0, 16, 0, 0)', 'key_shape(3, 3, 16, 6, 0)', 'key_shape_opaque_sig(13, 0)']
